@@ -98,6 +98,7 @@ NewBad(e, v2, c2, f2, ch2, rj2, st2, acc2) ==
   \cup (IF P("opt") /\ allfin /\ Complete(I, v2) /\ Cost(I, v2) # Opt(I) THEN {"finished_on_non_optimal_assignment"} ELSE {})
   \cup (IF P("optq") /\ quiet /\ ~Complete(I, v2) THEN {"quiet_with_incomplete_assignment"} ELSE {})
   \cup (IF P("optq") /\ quiet /\ Complete(I, v2) /\ Cost(I, v2) # Opt(I) THEN {"quiet_on_non_optimal_assignment"} ELSE {})
+  \cup (IF P("endopt") /\ l = Len(T.ev) /\ ~(Complete(I, v2) /\ Cost(I, v2) = Opt(I)) THEN {"end_on_non_optimal_assignment"} ELSE {})
   \cup (IF P("stop") /\ \E i \in 1..Len(e.finev) :
               LET c == e.finev[i] IN ~(c2[c] = T.k \/ (c \in VComp /\ Nbrs(I, c) = {} /\ e.e = "start" /\ e.c = c))
         THEN {"C07_finished_at_wrong_cycle"} ELSE {})
